@@ -732,4 +732,436 @@ theorem unit_accounting (c : Ctx) (cmd : Cmd) (hc : c.cur = some cmd) :
     have := h1'.2
     simp [hce2, hlt] at this
 
+
+section DataItems
+open ScpiVerif.Spec ScpiVerif.Lemmas.Lexer
+
+/-! ### what a data item of the specification looks like, by type -/
+
+theorem nondecimal_some_cases {s : Bytes} {e : Expect} (h : specToken .nondecimal s = some e) :
+    ∃ pd : UInt8 → Bool, ((e.type = .hexnum ∧ pd = isXDigit) ∨ (e.type = .octnum ∧ pd = isQDigit) ∨
+        (e.type = .binnum ∧ pd = isBDigit)) ∧
+      e.payloadOff = 2 ∧ 0 < e.payloadLen ∧ e.consumed = 2 + e.payloadLen ∧ e.payloadLen = tw pd (s.drop 2) := by
+  rw [specToken_nondecimal] at h
+  simp only [longest_numRe, List.drop_drop] at h
+  rcases pdata_orElse_some h with h | h
+  · split at h
+    · rename_i n hn
+      split at hn
+      · rename_i hc
+        cases hn; cases h
+        exact ⟨isXDigit, .inl ⟨rfl, rfl⟩, rfl, by have := hc.2.2; simp; omega, by simp, by simp⟩
+      · cases hn
+    · cases h
+  · rcases pdata_orElse_some h with h | h
+    · split at h
+      · rename_i n hn
+        split at hn
+        · rename_i hc
+          cases hn; cases h
+          exact ⟨isQDigit, .inr (.inl ⟨rfl, rfl⟩), rfl, by have := hc.2.2; simp; omega, by simp, by simp⟩
+        · cases hn
+      · cases h
+    · split at h
+      · rename_i n hn
+        split at hn
+        · rename_i hc
+          cases hn; cases h
+          exact ⟨isBDigit, .inr (.inr ⟨rfl, rfl⟩), rfl, by have := hc.2.2; simp; omega, by simp, by simp⟩
+        · cases hn
+      · cases h
+
+inductive ItemShape (s : Bytes) (n : Nat) (t : TokType) (po pl : Nat) : Prop where
+  | nondecimal (pd : UInt8 → Bool)
+      (ht : (t = .hexnum ∧ pd = isXDigit) ∨ (t = .octnum ∧ pd = isQDigit) ∨ (t = .binnum ∧ pd = isBDigit))
+      (hpo : po = 2) (hpl : 0 < pl) (hn : n = 2 + pl) (htw : pl = tw pd (s.drop 2))
+  | chr (ht : t = .programMnemonic) (hpo : po = 0) (hpl : pl = n)
+      (hs : specToken .chr s = some ⟨n, .programMnemonic, 0, n⟩)
+  | decimal (ht : t = .decimal) (hpo : po = 0) (hpl : pl = n)
+      (hs : specToken .decimal s = some ⟨n, .decimal, 0, n⟩)
+  | withSuffix (e sf : Nat) (ht : t = .decimalWithSuffix) (hpo : po = 0) (hpl : pl = n)
+      (hs : specToken .decimal s = some ⟨e, .decimal, 0, e⟩)
+      (hsf : specToken .suffix (s.drop (e + wsLen (s.drop e))) = some ⟨sf, .suffix, 0, sf⟩)
+      (hn : n = e + wsLen (s.drop e) + sf)
+  | other (ht : t = .singleQuote ∨ t = .doubleQuote ∨ t = .block ∨ t = .expression)
+
+theorem specData_item_shape {s : Bytes} {n : Nat} {t : TokType} {po pl : Nat}
+    (h : specData s = .item n t po pl) : ItemShape s n t po pl := by
+  rw [pdata_specData_eq] at h
+  unfold pdata_tok at h
+  split at h
+  · rename_i e he
+    cases h
+    obtain ⟨pd, h1, h2, h3, h4, h5⟩ := nondecimal_some_cases he
+    exact .nondecimal pd h1 h2 h3 h4 h5
+  · split at h
+    · rename_i e he
+      cases h
+      have := pdata_chr_some he
+      rw [this.2] at he
+      rw [this.2]
+      exact .chr rfl rfl rfl he
+    · unfold pdata_sd3 at h
+      split at h
+      · rename_i e he
+        have h0 := pdata_decimal_some he
+        rw [h0.2] at he
+        simp only [] at h
+        split at h
+        · rename_i sf hsf
+          cases h
+          have h1 := pdata_suffix_some hsf
+          rw [h1.2] at hsf
+          exact .withSuffix e.consumed sf.consumed rfl rfl rfl he hsf rfl
+        · cases h
+          exact .decimal rfl rfl rfl he
+      · unfold pdata_tok at h
+        split at h
+        · rename_i e he
+          cases h
+          refine .other ?_
+          simp only [specToken] at he
+          split at he
+          · cases he; exact .inr (.inl rfl)
+          · split at he
+            · cases he; exact .inl rfl
+            · cases he
+        · unfold pdata_sd5 at h
+          split at h
+          · cases h; exact .other (.inr (.inr (.inl rfl)))
+          · cases h
+          · unfold pdata_tok at h
+            split at h
+            · rename_i e he
+              cases h
+              rw [(pdata_expression_some he).2]
+              exact .other (.inr (.inr (.inr rfl)))
+            · cases h
+
+theorem specData_item_valid {s : Bytes} {n : Nat} {t : TokType} {po pl : Nat}
+    (h : Spec.specData s = .item n t po pl) : validType t = true := by
+  cases specData_item_shape h with
+  | nondecimal pd ht => rcases ht with ⟨rfl, _⟩ | ⟨rfl, _⟩ | ⟨rfl, _⟩ <;> rfl
+  | chr ht => subst ht; rfl
+  | decimal ht => subst ht; rfl
+  | withSuffix e sf ht => subst ht; rfl
+  | other ht => rcases ht with rfl | rfl | rfl | rfl <;> rfl
+
+/-! ### SCPI_Parameter against the data specification -/
+
+theorem pwin_length (c : Ctx) (hw : c.pbase + c.plen ≤ c.buf.length) : (pwin c).length = c.plen := by
+  simp [pwin]; omega
+
+theorem lexComma_eq (win : Bytes) (rel : Nat) :
+    lexComma win rel = if win[rel]? = some 44 then (rel + 1, mkTok .comma rel 1, 1) else (rel, mkTok .unknown rel 0, 0) := by
+  unfold lexComma lexOneChar peekP
+  cases h : win[rel]? with
+  | none => simp
+  | some b => by_cases hb : b = 44 <;> simp [hb]
+
+theorem pstart_le (c : Ctx) (h : ¬ atEnd c) (hw : c.pbase + c.plen ≤ c.buf.length) :
+    pstart c ≤ (pwin c).length := by
+  rw [pwin_length c hw]
+  unfold pstart
+  simp only [atEnd] at h
+  split
+  · rw [lexComma_eq]
+    split
+    · rename_i h44
+      have : c.ppos - c.pbase < (pwin c).length := by
+        rcases Nat.lt_or_ge (c.ppos - c.pbase) (pwin c).length with h1 | h1
+        · exact h1
+        · rw [List.getElem?_eq_none h1] at h44; cases h44
+      rw [pwin_length c hw] at this
+      simp only []; omega
+    · simp only []; omega
+  · omega
+
+theorem parameter_delivers_next_item (c : Ctx) (mand : Bool) (h : ¬ atEnd c) (hw : c.pbase + c.plen ≤ c.buf.length)
+    (hpos : c.pbase ≤ c.ppos) :
+    let win := (c.buf.drop c.pbase).take c.plen
+    let rel := c.ppos - c.pbase
+    let (c', ok, tok) := parameter c mand
+    if c.inputCount ≠ 0 ∧ win[rel]? ≠ some 44 then ok = false ∧ errorsSince c c' = [-103]
+    else
+      let start := if c.inputCount ≠ 0 then rel + 1 else rel
+      let w0 := Spec.wsLen (win.drop start)
+      match Spec.specData (win.drop (start + w0)) with
+      | .item n t po pl =>
+        ok = true ∧ tok = ⟨t, c.pbase + start + w0 + po, pl⟩ ∧
+        c'.ppos = c.pbase + start + w0 + n + Spec.wsLen (win.drop (start + w0 + n)) ∧ errorsSince c c' = []
+      | _ => ok = false ∧ errorsSince c c' = [-151] := by
+  intro win rel
+  have hle := pstart_le c h hw
+  have hatend : ¬ c.ppos ≥ c.pbase + c.plen := h
+  rw [parameter_eq, if_neg hatend]
+  have hcm : ((lexComma (pwin c) (c.ppos - c.pbase)).2.1.type != .comma) = true ↔ win[rel]? ≠ some 44 := by
+    rw [lexComma_eq]
+    show _ ↔ (pwin c)[c.ppos - c.pbase]? ≠ some 44
+    split <;> simp_all [mkTok]
+  by_cases hcomma : c.inputCount ≠ 0 ∧ win[rel]? ≠ some 44
+  · rw [if_pos (by simpa [hcm] using hcomma)]
+    dsimp only
+    rw [if_pos hcomma]
+    exact ⟨rfl, errorsSince_pushError c _ (-103) none 0 rfl (by decide)⟩
+  · rw [if_neg (by simpa [hcm] using hcomma)]
+    have hstart : pstart c = (if c.inputCount ≠ 0 then rel + 1 else rel) := by
+      unfold pstart
+      by_cases hi : c.inputCount ≠ 0
+      · have h44 : win[rel]? = some 44 := by
+          by_cases h4 : win[rel]? = some 44
+          · exact h4
+          · exact absurd ⟨hi, h4⟩ hcomma
+        have : (c.inputCount != 0) = true := by simpa using hi
+        have h44' : (pwin c)[c.ppos - c.pbase]? = some 44 := h44
+        rw [if_pos this, if_pos hi, lexComma_eq, if_pos h44']
+      · have : ¬ (c.inputCount != 0) = true := by simpa using hi
+        rw [if_neg this, if_neg hi]
+    have hspec := Props.C13.programData_spec (pwin c) (pstart c) hle
+    simp only [List.drop_drop] at hspec
+    rw [hstart] at hspec
+    have hptok : ptok c = (Parser.parseProgramData (pwin c) (if c.inputCount ≠ 0 then rel + 1 else rel)).2.1 := by
+      unfold ptok; rw [hstart]
+    have hpnext : (pnext c).ppos = c.pbase + (Parser.parseProgramData (pwin c) (if c.inputCount ≠ 0 then rel + 1 else rel)).1 := by
+      unfold pnext; rw [hstart]
+    have hwin : pwin c = win := rfl
+    rw [hwin] at hspec hptok hpnext
+    by_cases hv : validType (ptok c).type = true
+    · rw [if_pos hv]
+      dsimp only
+      rw [if_neg hcomma]
+      generalize (if c.inputCount ≠ 0 then rel + 1 else rel) = start at hspec hptok hpnext ⊢
+      generalize Spec.wsLen (List.drop start win) = w0 at hspec ⊢
+      generalize hsd : Spec.specData (List.drop (start + w0) win) = d at hspec ⊢
+      cases d with
+      | item n t po pl =>
+        dsimp only at hspec ⊢
+        obtain ⟨h1, _, h3, _⟩ := hspec
+        refine ⟨rfl, ?_, ?_, errorsSince_of_events_eq rfl⟩
+        · rw [hptok, h3]; simp only [Nat.add_assoc]
+        · rw [hpnext, h1]; simp only [Nat.add_assoc]
+      | swallow =>
+        dsimp only at hspec
+        rw [hptok, hspec.1] at hv; cases hv
+      | none =>
+        dsimp only at hspec
+        rw [hptok, hspec.1] at hv; cases hv
+    · rw [if_neg hv]
+      dsimp only
+      rw [if_neg hcomma]
+      generalize (if c.inputCount ≠ 0 then rel + 1 else rel) = start at hspec hptok hpnext ⊢
+      generalize Spec.wsLen (List.drop start win) = w0 at hspec ⊢
+      generalize hsd : Spec.specData (List.drop (start + w0) win) = d at hspec ⊢
+      cases d with
+      | item n t po pl =>
+        dsimp only at hspec
+        obtain ⟨h1, _, h3, _⟩ := hspec
+        rw [hptok, h3] at hv
+        exact absurd (specData_item_valid hsd) hv
+      | swallow => exact ⟨rfl, errorsSince_pushError c _ (-151) none 0 rfl (by decide)⟩
+      | none => exact ⟨rfl, errorsSince_pushError c _ (-151) none 0 rfl (by decide)⟩
+
+end DataItems
+
+/-! ### strtol / strtoul convert something iff the first byte after the sign is a digit of the base -/
+section Strto
+open ScpiVerif.Prim
+
+
+theorem rd_drop (mem : Bytes) (off k : Nat) : rd mem (off + k) = (mem.drop off).getD k 0 := by
+  simp [rd, List.getD_eq_getElem?_getD, List.getElem?_drop]
+
+theorem digitsOfBase_le (mem : Bytes) (base : Nat) :
+    ∀ fuel i acc, i ≤ (digitsOfBase mem base fuel i acc).1 := by
+  intro fuel
+  induction fuel with
+  | zero => intro i acc; simp [digitsOfBase]
+  | succ f ih =>
+    intro i acc
+    simp only [digitsOfBase]
+    split
+    · split
+      · rename_i d _ _
+        have := ih (i+1) (acc*base+d); omega
+      · simp
+    · simp
+
+theorem digitsOfBase_pos_iff (mem : Bytes) (base f i acc : Nat) :
+    (digitsOfBase mem base (f+1) i acc).1 ≠ i ↔ ∃ d, digitVal (rd mem i) = some d ∧ d < base := by
+  simp only [digitsOfBase]
+  split
+  · rename_i d hd
+    split
+    · rename_i hlt
+      have := digitsOfBase_le mem base f (i+1) (acc*base+d)
+      constructor
+      · intro _; exact ⟨d, hd, hlt⟩
+      · intro _; omega
+    · rename_i hlt
+      simp [hd]
+      omega
+  · rename_i hd
+    simp [hd]
+
+theorem hex_digit (b : UInt8) (h : isHexDigit b = true) : ∃ d, digitVal b = some d ∧ d < 16 := by
+  simp only [isHexDigit, Bool.or_eq_true, Bool.and_eq_true, decide_eq_true_eq, UInt8.le_iff_toNat_le] at h
+  simp only [digitVal, UInt8.le_iff_toNat_le]
+  have h48 : (48 : UInt8).toNat = 48 := rfl
+  have h57 : (57 : UInt8).toNat = 57 := rfl
+  have h97 : (97 : UInt8).toNat = 97 := rfl
+  have h102 : (102 : UInt8).toNat = 102 := rfl
+  have h122 : (122 : UInt8).toNat = 122 := rfl
+  have h65 : (65 : UInt8).toNat = 65 := rfl
+  have h70 : (70 : UInt8).toNat = 70 := rfl
+  have h90 : (90 : UInt8).toNat = 90 := rfl
+  simp only [h48, h57, h97, h102, h122, h65, h70, h90] at h ⊢
+  split
+  · exact ⟨_, rfl, by omega⟩
+  · split
+    · exact ⟨_, rfl, by omega⟩
+    · split
+      · exact ⟨_, rfl, by omega⟩
+      · omega
+
+theorem strtoSyntax_fst (mem : Bytes) (off base i1 : Nat) (neg : Bool)
+    (h0 : skipSpaces mem (mem.length - off + 1) off = off)
+    (h1 : (if rd mem off == 45 then (true, off + 1) else if rd mem off == 43 then (false, off + 1) else (false, off)) = (neg, i1)) :
+    (strtoSyntax mem off base).1 =
+      if (digitsOfBase mem base (mem.length - (if base == 16 ∧ rd mem i1 == 48 ∧ (rd mem (i1 + 1) == 120 ∨ rd mem (i1 + 1) == 88) ∧
+       isHexDigit (rd mem (i1 + 2)) then i1 + 2 else i1) + 2) (if base == 16 ∧ rd mem i1 == 48 ∧ (rd mem (i1 + 1) == 120 ∨ rd mem (i1 + 1) == 88) ∧
+       isHexDigit (rd mem (i1 + 2)) then i1 + 2 else i1) 0).1 = (if base == 16 ∧ rd mem i1 == 48 ∧ (rd mem (i1 + 1) == 120 ∨ rd mem (i1 + 1) == 88) ∧
+       isHexDigit (rd mem (i1 + 2)) then i1 + 2 else i1) then 0 else (digitsOfBase mem base (mem.length - (if base == 16 ∧ rd mem i1 == 48 ∧ (rd mem (i1 + 1) == 120 ∨ rd mem (i1 + 1) == 88) ∧
+       isHexDigit (rd mem (i1 + 2)) then i1 + 2 else i1) + 2) (if base == 16 ∧ rd mem i1 == 48 ∧ (rd mem (i1 + 1) == 120 ∨ rd mem (i1 + 1) == 88) ∧
+       isHexDigit (rd mem (i1 + 2)) then i1 + 2 else i1) 0).1 - off := by
+  simp only [strtoSyntax, h0, h1]
+  generalize (if base == 16 ∧ rd mem i1 == 48 ∧ (rd mem (i1 + 1) == 120 ∨ rd mem (i1 + 1) == 88) ∧
+       isHexDigit (rd mem (i1 + 2)) then i1 + 2 else i1) = i2
+  simp only [beq_iff_eq]
+  split <;> rfl
+
+theorem digitsOfBase_pos_iff' (mem : Bytes) (base f i acc : Nat) (hf : 0 < f) :
+    (digitsOfBase mem base f i acc).1 ≠ i ↔ ∃ d, digitVal (rd mem i) = some d ∧ d < base := by
+  obtain ⟨f', rfl⟩ : ∃ f', f = f' + 1 := ⟨f - 1, by omega⟩
+  exact digitsOfBase_pos_iff mem base f' i acc
+
+theorem strtoSyntax_core (mem : Bytes) (off base i1 : Nat) (neg : Bool) (x : UInt8)
+    (h0 : skipSpaces mem (mem.length - off + 1) off = off)
+    (h1 : (if rd mem off == 45 then (true, off + 1) else if rd mem off == 43 then (false, off + 1) else (false, off)) = (neg, i1))
+    (hle : off ≤ i1) (hx : rd mem i1 = x) :
+    0 < (strtoSyntax mem off base).1 ↔ ∃ d, digitVal x = some d ∧ d < base := by
+  rw [strtoSyntax_fst mem off base i1 neg h0 h1]
+  split
+  · rename_i hc
+    obtain ⟨hb, h48, _, hhex⟩ := hc
+    have hb' : base = 16 := by simpa using hb
+    have hx48 : x = 48 := by rw [← hx]; simpa using h48
+    obtain ⟨d, hd, hd16⟩ := hex_digit _ hhex
+    have hp := (digitsOfBase_pos_iff' mem base (mem.length - (i1 + 2) + 2) (i1 + 2) 0 (by omega)).2 ⟨d, hd, by omega⟩
+    have hge := digitsOfBase_le mem base (mem.length - (i1 + 2) + 2) (i1 + 2) 0
+    rw [if_neg hp]
+    constructor
+    · intro _
+      refine ⟨0, ?_, by omega⟩
+      subst hx48; rfl
+    · intro _
+      omega
+  · have hp := digitsOfBase_pos_iff' mem base (mem.length - i1 + 2) i1 0 (by omega)
+    have hge := digitsOfBase_le mem base (mem.length - i1 + 2) i1 0
+    rw [hx] at hp
+    rw [← hp]
+    split
+    · rename_i h; simp [h]
+    · rename_i h
+      simp only [h, ne_eq, not_false_eq_true, iff_true]
+      omega
+
+theorem skipSpaces_stop (mem : Bytes) (f i : Nat) (h : isSpace (rd mem i) = false) :
+    skipSpaces mem (f + 1) i = i := by
+  simp [skipSpaces, h]
+
+theorem strtoSyntax_pos_iff (mem : Bytes) (off base : Nat) (sg rest : Bytes) (x : UInt8)
+    (hmem : mem.drop off = sg ++ x :: rest) (hsg : sg = [] ∨ sg = [43] ∨ sg = [45])
+    (hx : isSpace x = false ∧ x ≠ 43 ∧ x ≠ 45)
+    (hb : base = 10 ∨ base = 8 ∨ base = 2 ∨ base = 16) :
+    0 < (strtoSyntax mem off base).1 ↔ ∃ d, digitVal x = some d ∧ d < base := by
+  obtain ⟨hsp, h43, h45⟩ := hx
+  have r0 := rd_drop mem off 0
+  have r1 := rd_drop mem off 1
+  rw [hmem] at r0 r1
+  rcases hsg with rfl | rfl | rfl
+  · have r0 : rd mem off = x := by simpa using r0
+    apply strtoSyntax_core mem off base off false x
+    · exact skipSpaces_stop mem _ off (by rw [r0]; exact hsp)
+    · simp [r0, h43, h45]
+    · omega
+    · exact r0
+  · have r0 : rd mem off = 43 := by simpa using r0
+    have r1 : rd mem (off + 1) = x := by simpa using r1
+    apply strtoSyntax_core mem off base (off + 1) false x
+    · exact skipSpaces_stop mem _ off (by rw [r0]; decide)
+    · simp [r0]
+    · omega
+    · exact r1
+  · have r0 : rd mem off = 45 := by simpa using r0
+    have r1 : rd mem (off + 1) = x := by simpa using r1
+    apply strtoSyntax_core mem off base (off + 1) true x
+    · exact skipSpaces_stop mem _ off (by rw [r0]; decide)
+    · simp [r0]
+    · omega
+    · exact r1
+
+theorem strtolTo_fst (w : Nat) (mem : Bytes) (off base : Nat) :
+    (strtolTo w mem off base).1 = (strtoSyntax mem off base).1 := by
+  simp only [strtolTo]
+  split
+  · rename_i h; simp at h; simp [h]
+  · rfl
+
+theorem strtoulTo_fst (w : Nat) (mem : Bytes) (off base : Nat) :
+    (strtoulTo w mem off base).1 = (strtoSyntax mem off base).1 := by
+  simp only [strtoulTo]
+  split
+  · rename_i h; simp at h; simp [h]
+  · rfl
+
+theorem strtolTo_pos_iff (w : Nat) (mem : Bytes) (off base : Nat) (sg rest : Bytes) (x : UInt8)
+    (hmem : mem.drop off = sg ++ x :: rest) (hsg : sg = [] ∨ sg = [43] ∨ sg = [45])
+    (hx : isSpace x = false ∧ x ≠ 43 ∧ x ≠ 45)
+    (hb : base = 10 ∨ base = 8 ∨ base = 2 ∨ base = 16) :
+    0 < (strtolTo w mem off base).1 ↔ ∃ d, digitVal x = some d ∧ d < base := by
+  rw [strtolTo_fst]; exact strtoSyntax_pos_iff mem off base sg rest x hmem hsg hx hb
+
+theorem strtoulTo_pos_iff (w : Nat) (mem : Bytes) (off base : Nat) (sg rest : Bytes) (x : UInt8)
+    (hmem : mem.drop off = sg ++ x :: rest) (hsg : sg = [] ∨ sg = [43] ∨ sg = [45])
+    (hx : isSpace x = false ∧ x ≠ 43 ∧ x ≠ 45)
+    (hb : base = 10 ∨ base = 8 ∨ base = 2 ∨ base = 16) :
+    0 < (strtoulTo w mem off base).1 ↔ ∃ d, digitVal x = some d ∧ d < base := by
+  rw [strtoulTo_fst]; exact strtoSyntax_pos_iff mem off base sg rest x hmem hsg hx hb
+
+/-- for base 10 the condition is `isDigit x` -/
+theorem digitVal_lt_10 (x : UInt8) : (∃ d, digitVal x = some d ∧ d < 10) ↔ isDigit x = true := by
+  simp only [isDigit, Bool.and_eq_true, decide_eq_true_eq, digitVal]
+  split
+  · rename_i h
+    simp only [h, and_self, iff_true]
+    refine ⟨_, rfl, ?_⟩
+    have := h.2
+    rw [UInt8.le_iff_toNat_le] at this
+    have h57 : (57 : UInt8).toNat = 57 := rfl
+    omega
+  · rename_i h
+    simp only [h, iff_false]
+    split
+    · rintro ⟨d, hd, hlt⟩
+      simp only [Option.some.injEq] at hd
+      omega
+    · split
+      · rintro ⟨d, hd, hlt⟩
+        simp only [Option.some.injEq] at hd
+        omega
+      · simp
+
+
+end Strto
+
 end ScpiVerif.Lemmas.Params
